@@ -10,5 +10,6 @@ META = {
 
 def run(ctx):
     durcommon.exhaustive(ctx, "C19")
-    durcommon.run_file(ctx, "asof", 50 if ctx.thorough() else 4, 0, "C19")
+    for k in range(4 if ctx.thorough() else 1):
+        durcommon.run_file(ctx, "asof", 50 if ctx.thorough() else 4, 0, "C19" + "x" * k)
     ctx.assumptions += durcommon.ASSUME
